@@ -36,6 +36,10 @@ impl<'a> WireFormat<'a> for RRSIG<'a> {
     where
         Self: Sized,
     {
+        if data.len() < *position + 18 {
+            return Err(crate::SimpleDnsError::InsufficientData);
+        }
+
         let type_covered = u16::from_be_bytes(data[*position..*position + 2].try_into()?);
         *position += 2;
 
